@@ -1,5 +1,6 @@
 """Parent process of a check: build, fan out worker interpreters, verify replays,
 write evidence, decide the exit code (DESIGN 3.3, 3.6, 3.8)."""
+import fnmatch
 import json
 import os
 import subprocess
@@ -234,8 +235,8 @@ def run_check(prop, tier="quick", seed=None, nproc=None, runs=None, budget=None,
                 rc = rc or 2
                 continue
             rv = res.get("violation")
-            still = rv is not None and rv["cls"] == k.get("class")
-        seen = known_seen.get(k.get("class"), {}).get("count", 0)
+            still = rv is not None and fnmatch.fnmatchcase(rv["cls"], k.get("class", ""))
+        seen = sum(e["count"] for cls, e in known_seen.items() if fnmatch.fnmatchcase(cls, k.get("class", "")))
         if still or seen:
             print("KNOWN-FINDING: property=%s %s %s (witness %s; %d matching cases in this run)"
                   % (prop, k.get("id", ""), k["text"], "still fails" if still else "not replayed", seen))
@@ -307,7 +308,7 @@ def run_replay(prop, path):
         return 0
     known = load_known(prop)
     for k in known:
-        if k.get("class") == v["cls"]:
+        if fnmatch.fnmatchcase(v["cls"], k.get("class", "")):
             print("KNOWN-FINDING: property=%s %s %s" % (prop, k.get("id", ""), k["text"]))
             print("  class=%s step=%s\n  %s" % (v["cls"], v.get("step"), v["msg"][:1500]))
             return 0
